@@ -4,7 +4,7 @@
 # excluding build output, evidence/replay and coordinator-owned files.
 B=$1
 cd $B || exit 2
-EXC='--exclude=.git --exclude=.lake --exclude=.audit --exclude=.lock --exclude=__pycache__ --exclude=evidence --exclude=replay --exclude=DESIGN.md --exclude=MANIFEST.json --exclude=properties.jsonl --exclude=known_findings.json --exclude=BUILDER_GUIDE.md --exclude=lean/lakefile.toml --exclude=tools/fw.py --exclude=seeded --exclude=*.pyc'
+EXC='--exclude=.git --exclude=.lake --exclude=.audit --exclude=.lock --exclude=__pycache__ --exclude=evidence --exclude=replay --exclude=DESIGN.md --exclude=MANIFEST.json --exclude=properties.jsonl --exclude=known_findings.json --exclude=BUILDER_GUIDE.md --exclude=lean/lakefile.toml --exclude=tools/fw.py --exclude=seeded --exclude=*.pyc --exclude=StripBlock.lean'
 if [ "$2" = "apply" ]; then
   rsync -au $EXC --out-format='%n' ./ /verif/ | grep -v '/$'
 else
